@@ -786,7 +786,9 @@ func c12IDs(w *core.W, j int) {
 		}
 		sv.Write(frame(mk(id, "stream")))
 		w.Eval(1)
-		rep, _, err := c.ExchangeWithConn(q, &dns.Conn{Conn: cl})
+		// (the reply is already in the pipe: the generous deadline is never waited for, it only keeps a
+		// machine that schedules this goroutine a second late from turning into a verdict)
+		rep, _, err := (&dns.Client{Timeout: time.Minute}).ExchangeWithConn(q, &dns.Conn{Conn: cl})
 		if foreign && !errors.Is(err, dns.ErrId) {
 			w.Violation("C12/stream-foreign-id-accepted", fmt.Sprintf("stream reply with id %d for request %d: err=%v reply=%v", id, q.Id, err, rep != nil), nil)
 		}
@@ -829,7 +831,7 @@ func c12IDs(w *core.W, j int) {
 					}
 					w.Eval(1)
 					w.Count("unix_stream_exchanges", 1)
-					rep, _, err := c.ExchangeWithConn(q, &dns.Conn{Conn: uc})
+					rep, _, err := (&dns.Client{Timeout: time.Minute}).ExchangeWithConn(q, &dns.Conn{Conn: uc}) // (the peer hangs up after 400 ms)
 					uc.Close()
 					if foreign && !errors.Is(err, dns.ErrId) {
 						w.Violation("C12/stream-foreign-id-accepted/unix", fmt.Sprintf("reply with id %d for request %d over a unix stream socket: err=%v reply=%v", id, q.Id, err, rep != nil), nil)
